@@ -72,6 +72,21 @@ impl Oracle {
                 let t2r: Vec<&str> = t2.iter().map(|x| x.as_str()).collect();
                 self.bits(&t2r, line, Some(fin))
             }
+            ("C04", "sps") | ("C04", "derived") => {
+                // converse half: an accepted bit string is the encoding of the returned structure (scaling lists aside)
+                let d = unhex(toks.get(1).copied().unwrap_or(""));
+                let verdict = match h264_reader::nal::sps::SeqParameterSet::from_bits(h264_reader::rbsp::BitReader::new(&d[..])) {
+                    Ok(s) => match crate::reenc::enc_sps(&s) { Some(bits) => match crate::reenc::is_encoding_of(&d, &bits) { Ok(()) => "ok".to_string(), Err(e) => format!("FAIL the parser accepted this SPS but the returned structure does not re-encode to it: {}", e) }, None => "ok".into() },
+                    Err(_) => "ok".into() };
+                let _ = self.run.run_line(line); verdict
+            }
+            ("C05", "pps") => {
+                let d = unhex(toks.get(1).copied().unwrap_or(""));
+                let verdict = match h264_reader::nal::pps::PicParameterSet::from_bits(&self.run.ctx, h264_reader::rbsp::BitReader::new(&d[..])) {
+                    Ok(p) => match crate::reenc::enc_pps(&p) { Some(bits) => match crate::reenc::is_encoding_of(&d, &bits) { Ok(()) => "ok".to_string(), Err(e) => format!("FAIL the parser accepted this PPS but the returned structure does not re-encode to it: {}", e) }, None => "ok".into() },
+                    Err(_) => "ok".into() };
+                let _ = self.run.run_line(line); verdict
+            }
             ("C13", "derived") => self.c13(line),
             ("C16", "sps") | ("C16", "pps") | ("C16", "slice") => self.c16(&toks, line),
             ("C09", "avcc") => self.c09(toks.get(1).copied().unwrap_or(""), line),
